@@ -81,7 +81,7 @@ func (fc *fileCtx) raceInstrument() {
 
 	writes := map[ast.Expr]bool{}
 	addrOf := map[ast.Expr]bool{}
-	atomics := map[ast.Expr]bool{}
+	atomics := map[ast.Expr]string{}
 
 	unparen := func(e ast.Expr) ast.Expr {
 		for {
@@ -112,7 +112,27 @@ func (fc *fileCtx) raceInstrument() {
 			if sel, ok := v.Fun.(*ast.SelectorExpr); ok {
 				if id, ok := sel.X.(*ast.Ident); ok {
 					if pn, ok := info.Uses[id].(*types.PkgName); ok && pn.Imported().Path() == "sync/atomic" && len(v.Args) > 0 {
-						atomics[v.Args[0]] = true
+						store := "true"
+						if len(sel.Sel.Name) >= 4 && sel.Sel.Name[:4] == "Load" {
+							store = "false"
+						}
+
+						what := "atomic"
+						if u, ok := unparen(v.Args[0]).(*ast.UnaryExpr); ok && u.Op == token.AND {
+							if fs, ok := unparen(u.X).(*ast.SelectorExpr); ok {
+								what = fs.Sel.Name
+							}
+						}
+
+						atomics[v.Args[0]] = store + ", " + lbl(v, what)
+					}
+				}
+
+				// encoding/gob reflects over the whole value it is given
+				if s := info.Selections[sel]; s != nil && s.Kind() == types.MethodVal && sel.Sel.Name == "Encode" && len(v.Args) == 1 {
+					if fn, ok := s.Obj().(*types.Func); ok && fn.Pkg() != nil && fn.Pkg().Path() == "encoding/gob" && !inside(v.Args[0]) {
+						fc.wrap(v.Args[0], 3, "zzverifsim.ReadAll(", ", "+lbl(v, "gob.Encode")+")")
+						stats["race.readall"]++
 					}
 				}
 			}
@@ -179,12 +199,12 @@ func (fc *fileCtx) raceInstrument() {
 		return true
 	})
 
-	for a := range atomics {
+	for a, args := range atomics {
 		if inside(a) {
 			continue
 		}
 
-		fc.wrap(a, 2, "zzverifsim.AtomicPtr(", ")")
+		fc.wrap(a, 2, "zzverifsim.AtomicPtr(", ", "+args+")")
 		stats["race.atomic"]++
 	}
 }
